@@ -93,7 +93,7 @@ def step (s : S) (toks : List String) : S × String :=
   | ["failoff"] => ({ s with m := { m with f := sched 0 0 0 } }, "ok")
   | ["end"] =>
     let s' := poolExit (freeAll s)
-    (s', s!"end live={s'.m.live} leaked=0")
+    (s', s!"end live={s'.m.live} leaked=0 | n={s'.m.n}")
   -- ---------------------------------------------------------------- elastic array
   | ["ea_init", nrec, reclen, seed] =>
     match mkRecLen reclen.toNat! with
